@@ -297,6 +297,14 @@ class CallMixin:
       else:
         raise Unsupported('append on immutable')
       return NONE
+    if name == 'insert' and isinstance(v, VList):
+      idx = z3.simplify(self.to_int(a[0]))
+      if z3.is_int_value(idx):
+        i = idx.as_long()
+        n = len(v.items)
+        i = max(0, n + i) if i < 0 else min(i, n)
+        v.items.insert(i, a[1])
+        return NONE
     if name == 'extend':
       self.list_extend(v, a[0])
       return NONE
